@@ -120,8 +120,8 @@ func kinds(k schema.ChangeKind) string {
 	return strings.Join(s, "+")
 }
 
-// apply performs the edit on the model and returns the descriptors the differ must report for it.
-func apply(dialect string, m *gm.Schema, e EditRef) ([]string, error) {
+// Apply performs the edit on the model and returns the descriptors the differ must report for it.
+func Apply(dialect string, m *gm.Schema, e EditRef) ([]string, error) {
 	t := m.Table(e.Table)
 	need := func() error {
 		if t == nil {
@@ -441,7 +441,7 @@ func checkCase(c Case) (Outcome, error) {
 	var out Outcome
 	edited := c.Base.Clone()
 	for _, e := range c.Edits {
-		d, err := apply(c.Dialect, &edited, e)
+		d, err := Apply(c.Dialect, &edited, e)
 		if err != nil {
 			return out, err
 		}
